@@ -256,12 +256,14 @@ func verifJournalRecord(pgno uint32, orig []byte, nonce uint32) []byte {
 // with database "db" of n0 pages at position (41, checksum).
 func VerifReplicaWorld(n0 int, wal bool) (*Store, *DB, func() []int) {
 	w, _ := verifC01Replica(n0, wal)
+	w.store.id = 0xB0B // concrete: request headers carry the formatted id
 	return w.store, w.db, func() []int { return w.exits }
 }
 
 // VerifPrimaryWorld: a primary store with database "db".
 func VerifPrimaryWorld(n0 int, wal bool) (*Store, *DB, func() []int) {
 	w := verifNewStore(true)
+	w.store.id = 0xB0B
 	w.verifOpenDB(verifImage("img0", n0, wal), 41)
 	return w.store, w.db, func() []int { return w.exits }
 }
@@ -329,4 +331,43 @@ func verifImageBig(tag string, n int, wal bool, symbolic ...int) [][]byte {
 		verifHeaderPage(img[0], uint32(n), wal)
 	}
 	return img
+}
+
+// VerifStoreState digests everything the HTTP properties call "state": files,
+// positions and the lock table of database "db".
+type VerifStoreState struct {
+	Tree     map[string][]byte
+	Pos      ltx.Pos
+	Unlocked bool
+	HaltID   int64
+	DBs      int
+}
+
+func VerifSnapshotState(s *Store) VerifStoreState {
+	st := VerifStoreState{Tree: verifTreeDigest(s.path), DBs: len(s.dbs), Unlocked: true}
+	if db := s.dbs["db"]; db != nil {
+		st.Pos = db.Pos()
+		st.Unlocked = verifAllUnlocked(db)
+		if cur := db.haltLockAndGuard.Load().(*haltLockAndGuard); cur != nil {
+			st.HaltID = cur.haltLock.ID
+		}
+	}
+	return st
+}
+
+func VerifSameState(a, b VerifStoreState) bool {
+	return verifSameTree(a.Tree, b.Tree) && a.Pos == b.Pos && a.Unlocked == b.Unlocked && a.HaltID == b.HaltID && a.DBs == b.DBs
+}
+
+// VerifSetPrimaryInfo makes a replica know its primary.
+func VerifSetPrimaryInfo(s *Store, url string) {
+	s.primaryInfo = &PrimaryInfo{Hostname: "primary", AdvertiseURL: url}
+}
+
+// VerifEncodeTx builds a one-page transaction file extending pos for database db.
+func VerifEncodeTx(db *DB, nodeID uint64, txid ltx.TXID, pre ltx.Checksum) []byte {
+	p := rt.Bytes("fwd", verifP)
+	verifHeaderPage(p, 1, false)
+	hdr := ltx.Header{PageSize: verifP, Commit: 1, MinTXID: txid, MaxTXID: txid, PreApplyChecksum: pre, NodeID: nodeID}
+	return verifEncodeLTX(hdr, []uint32{1}, [][]byte{p}, verifSpecChecksum([][]byte{p}))
 }
